@@ -164,6 +164,25 @@ check(
     "DESIGN.md section 3, C17",
 )
 
+check(
+    "C18",
+    "quiescent-point audit of AtomGraph.graph against the stochastic graph and the AST (verify-a-hint residue partition with bounded backtracking fallback); logical line budget; schedule enumeration with a scripted Generator",
+    "Schulz-Zimm molecules of all archetypes are turned into stochastic atom graphs and generated under random streams and under all choice sequences of "
+    "bounded graphs; each result must be one connected sanitisable molecule whose nodes partition into whole residues (all atoms and static bonds of the "
+    "token), whose inter-residue bonds have a non-static template edge of the same order, and whose residues form a tree; equal seeds give equal molecules.",
+    "Held on the molecules observed. Graphs without a start node are outside the quantifier; draws that raise (C11 finding) are skipped.",
+    "DESIGN.md section 3, C18",
+)
+check(
+    "C19",
+    "differential runtime oracle: get_ensemble_prob on harness-assembled chains (and random atom renumberings, and non-members) against closed-form interval probabilities x the reference model's exact path probability",
+    "For linear chains of one directed unit per block (1-3 blocks, prefix or end-group start, all families) every chain length up to a bound is queried and "
+    "compared with the probability that generation produces that molecule; sums over lengths, non-members (must be 0) and atom-order independence are "
+    "checked; each query runs under a logical line budget.",
+    "Held on the queries decided. Trusts gbv/ref/dist.py and gbv/ref/model.py; for Schulz-Zimm the documented density on integer masses is summed.",
+    "DESIGN.md section 3, C19",
+)
+
 ALL = [f"C{i:02d}" for i in range(1, 21)]
 
 
